@@ -176,4 +176,49 @@ theorem CpsOkT.sorted_abs {cps : List T_chaincfg_Checkpoint} (ok : CpsOkT cps) :
     have := hn _ (List.mem_cons_self ..)
     simp only [absCp]; omega
 
+/-! ### BlockHeadersSynced -/
+
+theorem idx_last_eq (cps : List T_chaincfg_Checkpoint) (hne : cps ≠ []) :
+    idx cps (len cps - 1) = cps.getLast hne := by
+  obtain ⟨front, last, rfl⟩ : ∃ front last, cps = front ++ [last] :=
+    ⟨cps.dropLast, cps.getLast hne, (List.dropLast_concat_getLast hne).symm⟩
+  have : len (front ++ [last]) - 1 = ((front.length : Nat) : Int) := by simp [len_eq]
+  rw [this, idx_natCast]; simp
+
+/-- **`BlockHeadersSynced` as the code spells it**, for every answer of the stores and the clock:
+the chain tip is read without error, lies above the last checkpoint, is not below the sync peer's
+last block, its timestamp is not more than 24 h behind the adjusted time, and - with a sync peer -
+the peer's last block is not below the starting height it advertised. -/
+theorem trans_blockHeadersSynced (cps : List T_chaincfg_Checkpoint) (noPeer : Bool) (add : Atom → Int → Atom)
+    (before : Atom → Atom → Bool) (tip : Option T_wire_BlockHeader × Nat × Bool) (now : Atom) (last start : Int) :
+    BlockHeadersSynced cps noPeer add before tip now last start
+      = (!tip.2.2 &&
+         (match cps.getLast? with
+          | some l => decide (l.Height < (tip.2.1 : Int))
+          | none => true) &&
+         !(!noPeer && decide ((tip.2.1 : Int) < last)) &&
+         !(before (deref tip.1).Timestamp (add now (-86400000000000))) &&
+         (noPeer || decide (start ≤ last))) := by
+  unfold BlockHeadersSynced
+  simp only []
+  cases he : tip.2.2
+  case true => simp
+  simp only [↓reduceIte, Bool.not_false, Bool.true_and]
+  have hk : BlockHeadersSynced_k1 noPeer add before now last start tip.1 tip.2.1
+      = (!(!noPeer && decide ((tip.2.1 : Int) < last)) &&
+         !(before (deref tip.1).Timestamp (add now (-86400000000000))) &&
+         (noPeer || decide (start ≤ last))) := by
+    unfold BlockHeadersSynced_k1
+    cases noPeer <;> cases hb : before (deref tip.1).Timestamp (add now (-86400000000000)) <;>
+      by_cases hl : (tip.2.1 : Int) < last <;> simp [hb, hl]
+  by_cases hnil : cps = []
+  · subst hnil
+    simp [hk]
+  · have hlen : ¬ len cps = 0 := fun hh => hnil (len_eq_zero.mp hh)
+    rw [List.getLast?_eq_some_getLast hnil]
+    simp only [hlen, ↓reduceIte, idx_last_eq cps hnil]
+    by_cases hlt : (cps.getLast hnil).Height < (tip.2.1 : Int)
+    · simp [hlt, hk]
+    · simp [hlt]
+
 end Neutrino.BM
